@@ -32,7 +32,13 @@ type preWrapCase struct {
 	dtype   reflect.Type
 }
 
+// preBlankIdx: which output the functions return for a blank input text (set by the scenario).
+var preBlankIdx int
+
 func preIdx(s string) int {
+	if strings.TrimSpace(s) == "" {
+		return preBlankIdx // the function decides what blank text means, not the library
+	}
 	var i int
 	fmt.Sscanf(s, "k%d", &i)
 	return i
@@ -188,7 +194,10 @@ func preprocScenario(prop string, accept map[string]bool) mc.Scenario {
 		oi := x.Choose(len(c.outputs), "output")
 		place := x.Choose(2, "placement")
 		out := c.outputs[oi]
-		gotI, gotD, gotP := preRun(c.wrap(c.build(mod), c.outputs), fmt.Sprintf("k%d", oi), c.dtype, place)
+		// the text handed to the function: a key naming the output, or blank text (which the function maps to the same output)
+		raw := []string{fmt.Sprintf("k%d", oi), "", "  "}[x.Choose(3, "input text")]
+		preBlankIdx = oi
+		gotI, gotD, gotP := preRun(c.wrap(c.build(mod), c.outputs), raw, c.dtype, place)
 		wantI, wantD, wantP := preRun(c.build(mod), preUnwrap(out), c.dtype, place)
 		zh.Reset()
 		o := &mc.Outcome{Traces: 2, Nontrivial: len(wantI) == 0, Sig: fmt.Sprintf("preproc|%s|%d|%d|%d|%v", c.name, mod, oi, place, wantI)}
@@ -205,7 +214,7 @@ func preprocScenario(prop string, accept map[string]bool) mc.Scenario {
 			class = "destination"
 		}
 		if class != "" && accept[class] {
-			x.Note("Preprocess(%s), wrapped node modifier %d (0 plain, 1 Required/NotNil, 2 Default), the function returned %s, placement %d (0 struct field, 1 slice element)", c.name, mod, canonNoTypes(reflect.ValueOf(out)), place)
+			x.Note("Preprocess(%s), wrapped node modifier %d (0 plain, 1 Required/NotNil, 2 Default), input text %q, the function returned %s, placement %d (0 struct field, 1 slice element)", c.name, mod, raw, canonNoTypes(reflect.ValueOf(out)), place)
 			o.Viol = append(o.Viol, &mc.Violation{
 				Key:      fmt.Sprintf("%s:preprocess-not-transparent:%s:%s", prop, class, strings.SplitN(c.name, ",", 2)[0]),
 				What:     "Parse through Preprocess(fn, S) differs from Parse through S of the value fn returned",
@@ -225,4 +234,4 @@ func preprocItem(prop string, accept ...string) Item {
 	return Item{Name: "preprocess-transparent", MaxDevs: -1, Run: preprocScenario(prop, acc)}
 }
 
-const preprocRule = "Preprocess is transparent: for 8 (output type, wrapped schema) pairs (int, *int, string, bool, []int, []string, *[]int, record) × wrapped-node modifier {plain, Required/NotNil, Default} × every listed output (zero values, blank text, empty and nil lists, failing and passing values) × placement {struct field, slice element}, Parse through Preprocess(fn, S) is compared with Parse of a fresh S on the value fn returned (issues with messages, destination)"
+const preprocRule = "Preprocess is transparent: for 8 (output type, wrapped schema) pairs (int, *int, string, bool, []int, []string, *[]int, record) × wrapped-node modifier {plain, Required/NotNil, Default} × every listed output (zero values, blank text, empty and nil lists, failing and passing values) × input text {a key, empty, blanks} × placement {struct field, slice element}, Parse through Preprocess(fn, S) is compared with Parse of a fresh S on the value fn returned (issues with messages, destination)"
